@@ -112,6 +112,17 @@ def check_protocol(ctx, model, clauses):
                 lp = model.load_path_of(ev['call'])
                 if lp is not None:
                     load_paths.add(canon(lp))
+    # an attribute that holds the load path (``self.module_pathname = <the path>``, its only store
+    # in the package) names the same file wherever it is read later
+    stores = {}
+    for info in ctx.repo.modules.values():
+        for x in ast.walk(info['tree']):
+            if isinstance(x, ast.Attribute) and not isinstance(x.ctx, ast.Load):
+                stores[x.attr] = stores.get(x.attr, 0) + 1
+    for p in model.paths:
+        for e in p.all_effects():
+            if e.kind == 'store_attr' and canon(e.obj) == 'self' and stores.get(e.name) == 1 and e.value is not None and canon(e.value) in load_paths:
+                load_paths.add('self.%s' % e.name)
     ctx.unit('paths', len(model.paths))
     for p in model.paths:
         evs = model.events(p)
@@ -359,7 +370,7 @@ def foreign_operands(model, p, evs, src):
         t = canon(strip_encode(op))
         if t in hin:
             continue
-        if isinstance(op, ast.JoinedStr) and all(isinstance(v, ast.Constant) or (isinstance(v, ast.FormattedValue) and is_digest(model, v.value)) for v in op.values):
+        if isinstance(op, ast.JoinedStr) and all(isinstance(v, ast.Constant) or (isinstance(v, ast.FormattedValue) and (is_digest(model, v.value) or isinstance(v.value, ast.Constant))) for v in op.values):
             continue
         if isinstance(op, ast.BinOp) and isinstance(op.op, ast.Mod) and isinstance(op.left, ast.Constant):
             vals = op.right.elts if isinstance(op.right, ast.Tuple) else [op.right]
